@@ -65,7 +65,9 @@ def run_tlc(module, cfg, workdir, env=None, workers=16, timeout=1800, xmx="8g", 
     e = dict(os.environ)
     e.update(env or {})
     e["JAVA_TOOL_OPTIONS"] = "-Xss512m"
-    cmd = ["java", "-XX:+UseParallelGC", "-Xmx" + xmx, "-cp", TLA_CP, "tlc2.TLC",
+    jtmp = os.path.join(workdir, "jtmp")
+    os.makedirs(jtmp, exist_ok=True)
+    cmd = ["java", "-XX:+UseParallelGC", "-Xmx" + xmx, "-Djava.io.tmpdir=" + jtmp, "-cp", TLA_CP, "tlc2.TLC",
            "-workers", str(workers), "-metadir", meta, "-cleanup", "-noGenerateSpecTE", "-nowarning",
            "-config", os.path.join(SPEC, cfg)]
     if simulate:
@@ -81,6 +83,7 @@ def run_tlc(module, cfg, workdir, env=None, workers=16, timeout=1800, xmx="8g", 
             raise ToolError("TLC timed out after %ds on %s (%s)" % (timeout, module, outpath))
     wall = time.time() - t
     shutil.rmtree(meta, ignore_errors=True)
+    shutil.rmtree(jtmp, ignore_errors=True)
     results, states, distinct, printed = [], None, None, []
     errors = []
     with open(outpath) as f:
